@@ -120,17 +120,31 @@ theorem recover_zero {xp : Bytes} (h : C.f.ofNat (leNat xp) = some 0) :
   unfold Dstu.encXY
   rw [encF_zero C L]
 
-theorem recover_nz {xp : Bytes} {x' : F} (h : C.f.ofNat (leNat xp) = some x') (hx : x' ≠ 0) :
+theorem recover_nz {xp : Bytes} {x' : F} (h : C.f.ofNat (leNat xp) = some x') (hx : x' ≠ 0)
+    (hf : xfix C x' ≠ 0) :
     C.recover xp =
       match C.f.qsolve C.f.one (bval C (xfix C x')) with
       | none => (.badParams, [])
       | some z => (.ok, C.encXY (xfix C x', ysel C (xfix C x') z (C.f.low x'))) := by
+  have e := (isZero_false_iff L (xfix C x')).2 hf
+  unfold xfix at e
   unfold Dstu.recover
   rw [h]
   simp only
   rw [(isZero_false_iff L x').2 hx]
-  simp only [Bool.false_eq_true, if_false, L.div_eq, L.add_eq, L.one_eq, L.sqr_eq, L.mul_eq]
+  simp only [Bool.false_eq_true, if_false, L.div_eq, L.add_eq, L.one_eq, L.sqr_eq, L.mul_eq, e]
   rfl
+
+/-- a string whose x-coordinate becomes 0 after the trace rule is rejected (docs/C16.fix-8.diff) -/
+theorem recover_nz_zero {xp : Bytes} {x' : F} (h : C.f.ofNat (leNat xp) = some x') (hx : x' ≠ 0)
+    (hf : xfix C x' = 0) : C.recover xp = (.badPoint, []) := by
+  have e := (L.isZero_iff (xfix C x')).2 hf
+  unfold xfix at e
+  unfold Dstu.recover
+  rw [h]
+  simp only
+  rw [(isZero_false_iff L x').2 hx]
+  simp only [Bool.false_eq_true, if_false, L.add_eq, L.one_eq, e, if_true]
 
 omit L in
 /-- the curve equation in terms of w = y / x -/
@@ -220,7 +234,7 @@ theorem recover_compress_aux (x y : F)
       intro h1; rw [h1, div_one]; exact hx1 h1
     obtain ⟨hs0, hslow, hsclr⟩ := stored_props C L hx (C.f.tr (y / x)) hx1'
     refine ⟨_, compress_nz C L hx y hx1', encF_length C _, ?_⟩
-    rw [recover_nz C L (decode_encF C L _) hs0, xfix_clearLow C L ht hsclr, hslow]
+    rw [recover_nz C L (decode_encF C L _) hs0 (by rw [xfix_clearLow C L ht hsclr]; exact hx), xfix_clearLow C L ht hsclr, hslow]
     obtain ⟨z, hz, hzw⟩ := qsolve_one L (curve_w C hx hc)
     rw [hz]
     simp only
